@@ -454,12 +454,14 @@ func (s *fmtSide) stmt(st ast.Stmt) []*fTok {
 		} else if x.Cond != nil {
 			bound = "NONCANONICAL(" + exprStr(x.Cond) + ")"
 		}
+		s.loopSkips(x.Body, body)
 		return append(out, &fTok{Kind: "LOOP", Len: bound, Body: body, Pos: x.Pos(), Whole: whole})
 	case *ast.RangeStmt:
 		body := s.block(x.Body.List)
 		if len(body) == 0 {
 			return nil
 		}
+		s.loopSkips(x.Body, body)
 		b := exprStr(x.X)
 		if !s.Writer {
 			b = s.rangeBound(x.X)
@@ -1059,4 +1061,55 @@ func constBytesLen(info *types.Info, e ast.Expr) (int, bool) {
 		return len(sv), true
 	}
 	return 0, false
+}
+
+// loopSkips: an iteration of a loop that transfers stream data must transfer it on every iteration — a `continue` (or
+// `break`) that comes before the last stream operation of the body lets an iteration skip what the count written in front
+// of the loop promised (and what the other side will consume).
+func (s *fmtSide) loopSkips(body *ast.BlockStmt, toks []*fTok) {
+	var last token.Pos
+	var walk func(ts []*fTok)
+	walk = func(ts []*fTok) {
+		for _, t := range ts {
+			if t.Pos > last && t.Pos >= body.Pos() && t.Pos < body.End() {
+				last = t.Pos
+			}
+			walk(t.Body)
+			walk(t.Else)
+		}
+	}
+	walk(toks)
+	if last == token.NoPos {
+		return
+	}
+	var visit func(n ast.Node, inner bool)
+	visit = func(n ast.Node, inner bool) {
+		ast.Inspect(n, func(m ast.Node) bool {
+			switch x := m.(type) {
+			case *ast.FuncLit:
+				return false
+			case *ast.ForStmt:
+				if m != n {
+					visit(x.Body, true)
+					return false
+				}
+			case *ast.RangeStmt:
+				if m != n {
+					visit(x.Body, true)
+					return false
+				}
+			case *ast.SwitchStmt, *ast.TypeSwitchStmt, *ast.SelectStmt:
+				// a break inside belongs to the switch; a continue still belongs to the loop
+			case *ast.BranchStmt:
+				if x.Pos() >= last {
+					return true
+				}
+				if x.Tok == token.CONTINUE && x.Label == nil && !inner {
+					s.Problems = append(s.Problems, "an iteration can `continue` at "+s.W.Pos(x.Pos())+" before the stream operation at "+s.W.Pos(last)+": the number of transferred entries no longer matches the count in front of the loop")
+				}
+			}
+			return true
+		})
+	}
+	visit(body, false)
 }
